@@ -63,6 +63,8 @@ def run(ctx):
             key = "edit:data-returned-after-read-error"
         elif ln["prefixOK"] == 0:
             key = "edit:non-prefix-data-returned:" + kinds
+        elif ln.get("keptOK", 1) == 0:
+            key = "edit:returned-record-changed-by-later-read:" + kinds
         elif ln["delivered"] > int(m.group(2)):
             key = "edit:tampered-stream-accepted:" + kinds
         else:
